@@ -214,6 +214,24 @@ func (f *Fake) netAction(w http.ResponseWriter, r *http.Request, action string) 
 	body, _ := io.ReadAll(io.LimitReader(r.Body, 1<<16))
 	var in map[string]interface{}
 	json.Unmarshal(body, &in)
+	// scripted: the connection of this request is cut after the request arrived and before any answer is sent
+	f.mu.Lock()
+	cut := f.CutNextREST != "" && f.CutNextREST == action
+	if cut {
+		f.CutNextREST = ""
+		f.call("REST:" + action + "(connection cut)")
+	}
+	f.mu.Unlock()
+	if cut {
+		if hj, ok := w.(http.Hijacker); ok {
+			if c, _, err := hj.Hijack(); err == nil {
+				c.Close()
+				return
+			}
+		}
+		w.WriteHeader(500)
+		return
+	}
 	str := func(k string) string {
 		if v, ok := in[k].(string); ok {
 			return v
@@ -282,12 +300,9 @@ func (f *Fake) netAction(w http.ResponseWriter, r *http.Request, action string) 
 	case "setreplicamode":
 		err = c.SetReplicaMode(types.Mode(str("mode")))
 	case "setrevisioncounter":
-		n, perr := strconv.ParseInt(str("counter"), 10, 64)
-		if perr != nil {
-			err = perr
-		} else {
-			err = c.SetRevisionCounter(n)
-		}
+		// as the replica's handler reads it: an absent or unparsable counter is taken as 0
+		n, _ := strconv.ParseInt(str("counter"), 10, 64)
+		err = c.SetRevisionCounter(n)
 	case "setcheckpoint":
 		err = c.SetCheckpoint(str("snapshotName"))
 	default:
